@@ -25,16 +25,13 @@ theorem checkPR_timed (s : Sender.St) (σ : BitVec 16) (L : BitVec 32) (h : Poli
   have hp' : (c.ppi == BitVec.ofNat 32 PayloadTypeWebRTCDCEP) = false := by simpa [dcep] using hp
   simp [Sender.checkPR, h1, hsi, h2, h3, h4, h5, hp', ReliabilityTypeTimed, ReliabilityTypeRexmit]
 
-/-- transmissions so far, plus one if a retransmission mark is pending -/
-def psi (c : Sender.Chunk) : Nat := c.nSent.toNat + (if c.retransmit then 1 else 0)
-
 /-- the invariant of a chunk of stream `σ` under a retransmission limit `N` (DCEP exempt):
 (1) while its message is not marked abandoned it has been transmitted fewer than `N` times;
-(2) an ending fragment (so: every unfragmented message) whose message is marked has `psi ≤ N + 1`;
+(2) an ending fragment (so: every unfragmented message) has been transmitted at most `max 1 N` times;
 (3) an ending fragment in flight has its message flagged all-in-flight -/
 def KRex (σ : BitVec 16) (N : BitVec 32) (ab ai : List Nat) (c : Sender.Chunk) : Prop :=
   c.si = σ → c.ppi ≠ dcep →
-    (c.msg ∉ ab → c.nSent < N) ∧ (c.efrag = true → c.msg ∈ ab → psi c ≤ N.toNat + 1) ∧ (c.efrag = true → c.msg ∈ ai)
+    (c.msg ∉ ab → c.nSent < N) ∧ (c.efrag = true → c.nSent.toNat ≤ max 1 N.toNat) ∧ (c.efrag = true → c.msg ∈ ai)
 
 theorem isAbandoned_true {ab ai : List Nat} {c : Sender.Chunk} (h1 : c.msg ∈ ab) (h2 : c.msg ∈ ai) : Sender.isAbandoned ab ai c = true := by
   simp [Sender.isAbandoned, h1, h2]
@@ -48,126 +45,104 @@ theorem KRex_closedL (σ : BitVec 16) (N : BitVec 32) : ClosedL (KRex σ N) wher
   mono := by
     intro ab ab' ai ai' c hab hai h hsi hp
     obtain ⟨k1, k2, k3⟩ := h hsi hp
-    refine ⟨fun hn => k1 (fun hm => hn (hab _ hm)), ?_, fun he => hai _ (k3 he)⟩
-    intro he hm
-    by_cases hold : c.msg ∈ ab
-    · exact k2 he hold
-    · have := k1 hold
-      simp only [psi]; rw [BitVec.lt_def] at this; split <;> omega
-  acked := by
-    intro ab ai c h hsi hp
-    obtain ⟨k1, k2, k3⟩ := h hsi hp
-    refine ⟨k1, ?_, k3⟩
-    intro he hm
-    have := k2 he hm
-    simp only [psi, Sender.Chunk.markAcked] at this ⊢
-    split at this <;> simp <;> omega
-  miss := by
-    intro ab ai c x h hsi hp
-    exact h hsi hp
-  mark := by
-    intro ab ai c h hna hack hsi hp
-    obtain ⟨k1, k2, k3⟩ := h hsi hp
-    refine ⟨k1, ?_, k3⟩
-    intro he hm
-    have := isAbandoned_true (c := c) hm (k3 he)
-    rw [hna] at this; cases this
+    exact ⟨fun hn => k1 (fun hm => hn (hab _ hm)), k2, fun he => hai _ (k3 he)⟩
+  acked := by intro ab ai c h hsi hp; exact h hsi hp
+  miss := by intro ab ai c x h hsi hp; exact h hsi hp
+  mark := by intro ab ai c h _ _ hsi hp; exact h hsi hp
 
-/-- what is known of a pending chunk: it carries no retransmission mark -/
+/-- what is known of a pending chunk (nothing is needed any more: kept for the shape of the instances) -/
 def Unmarked (c : Sender.Chunk) : Prop := c.retransmit = false
+
+/-- a retransmission of an ending fragment that is not abandoned(): fewer than `N` so far, so at most `N` afterwards -/
+theorem rex_retx (N : BitVec 32) (ab ai : List Nat) (c : Sender.Chunk)
+    (k1 : c.msg ∉ ab → c.nSent < N) (k3 : c.efrag = true → c.msg ∈ ai) (hna : Sender.isAbandoned ab ai c = false) (he : c.efrag = true) :
+    (c.nSent + 1).toNat ≤ max 1 N.toNat := by
+  have hnm : c.msg ∉ ab := by
+    intro hm
+    have := isAbandoned_true hm (k3 he)
+    rw [hna] at this; cases this
+  have h1 := k1 hnm
+  rw [BitVec.lt_def] at h1
+  have h2 := toNat_succ_le c.nSent
+  omega
 
 theorem KRex_closed (s : Sender.St) (σ : BitVec 16) (N : BitVec 32) (hpol : Policy s σ ReliabilityTypeRexmit N) :
     Closed s (KRex σ N) Unmarked where
   toClosedL := KRex_closedL σ N
   rtx := by
-    intro ab ai c h hr hsi hp
+    intro ab ai c h _ hna hsi hp
     have hsi' : c.si = σ := hsi
     have hp' : c.ppi ≠ dcep := hp
-    obtain ⟨k1, k2, k3⟩ := h hsi' hp'
+    obtain ⟨k1, _, k3⟩ := h hsi' hp'
     rw [checkPR_rex s σ N hpol ab _ hsi hp]
-    have hn : (Sender.rtxUpd s c).nSent = c.nSent + 1 := rfl
     have hm : (Sender.rtxUpd s c).msg = c.msg := rfl
-    have hf : (Sender.rtxUpd s c).retransmit = false := rfl
     have he : (Sender.rtxUpd s c).efrag = c.efrag := rfl
     refine ⟨?_, ?_, by rw [he, hm]; exact k3⟩
     · intro hnot
       split at hnot
       · rw [hm] at hnot; exact absurd List.mem_cons_self hnot
       · rename_i hge; simpa [BitVec.not_le] using hge
-    · intro hef _
+    · intro hef
       rw [he] at hef
-      simp only [psi, hn, hf]
-      have := toNat_succ_le c.nSent
-      by_cases hold : c.msg ∈ ab
-      · have := k2 hef hold
-        simp only [psi, hr, if_true] at this
-        simp; omega
-      · have := k1 hold
-        rw [BitVec.lt_def] at this
-        simp; omega
+      exact rex_retx N ab ai c k1 k3 hna hef
   fast := by
-    intro ab ai c h hack hna hskip hsi hp
+    intro ab ai c h _ hna _ hsi hp
     have hsi' : c.si = σ := hsi
     have hp' : c.ppi ≠ dcep := hp
-    obtain ⟨k1, k2, k3⟩ := h hsi' hp'
+    obtain ⟨k1, _, k3⟩ := h hsi' hp'
     rw [checkPR_rex s σ N hpol ab _ hsi hp]
-    have hn : (Sender.fastUpd s c).nSent = c.nSent + 1 := rfl
     have hm : (Sender.fastUpd s c).msg = c.msg := rfl
-    have hf : (Sender.fastUpd s c).retransmit = c.retransmit := rfl
     have he : (Sender.fastUpd s c).efrag = c.efrag := rfl
     refine ⟨?_, ?_, by rw [he, hm]; exact k3⟩
     · intro hnot
       split at hnot
       · rw [hm] at hnot; exact absurd List.mem_cons_self hnot
       · rename_i hge; simpa [BitVec.not_le] using hge
-    · intro hef _
+    · intro hef
       rw [he] at hef
-      by_cases hold : c.msg ∈ ab
-      · have := isAbandoned_true hold (k3 hef)
-        rw [hna] at this; cases this
-      · have := k1 hold
-        rw [BitVec.lt_def] at this
-        have h2 := toNat_succ_le c.nSent
-        simp only [psi, hn, hf]
-        split <;> omega
+      exact rex_retx N ab ai c k1 k3 hna hef
   fresh := by
-    intro ab ai c tsn hq hsi hp
+    intro ab ai c tsn _ hsi hp
     have hsi' : (firstTx s tsn c).si = σ := hsi
     rw [checkPR_rex s σ N hpol ab _ hsi' hp]
     have hn : (firstTx s tsn c).nSent = 1 := rfl
     have hm : (firstTx s tsn c).msg = c.msg := rfl
-    have hf : (firstTx s tsn c).retransmit = c.retransmit := rfl
     have he : (firstTx s tsn c).efrag = c.efrag := rfl
     refine ⟨?_, ?_, ?_⟩
     · intro hnot
       split at hnot
       · rw [hm] at hnot; exact absurd List.mem_cons_self hnot
       · rename_i hge; simpa [BitVec.not_le] using hge
-    · intro _ _
-      have hq' : c.retransmit = false := hq
-      simp only [psi, hn, hf, hq']
-      simp
+    · intro _
+      rw [hn]
+      have : (1 : BitVec 32).toNat = 1 := rfl
+      rw [this]; omega
     · intro hef
       rw [he] at hef
       rw [hm]; simp [hef]
 
 /-- the invariant of a chunk of stream `σ` under a lifetime `L` ms (DCEP exempt): while its message is not marked
 abandoned, its LAST transmission happened before the lifetime (counted from its first transmission) had expired — the
-transmission that finds the lifetime expired marks the message -/
-def KTimed (σ : BitVec 16) (L : BitVec 32) (ab _ai : List Nat) (c : Sender.Chunk) : Prop :=
-  c.si = σ → c.ppi ≠ dcep → c.msg ∉ ab → c.since - c.firstSent < L.toNat
+transmission that finds the lifetime expired marks the message; an ending fragment in flight has its message flagged
+all-in-flight -/
+def KTimed (σ : BitVec 16) (L : BitVec 32) (ab ai : List Nat) (c : Sender.Chunk) : Prop :=
+  c.si = σ → c.ppi ≠ dcep → (c.msg ∉ ab → c.since - c.firstSent < L.toNat) ∧ (c.efrag = true → c.msg ∈ ai)
 
 theorem KTimed_closedL (σ : BitVec 16) (L : BitVec 32) : ClosedL (KTimed σ L) where
-  mono := by intro ab ab' ai ai' c hab _ h hsi hp hn; exact h hsi hp (fun hm => hn (hab _ hm))
-  acked := by intro ab ai c h hsi hp hn; exact h hsi hp hn
-  miss := by intro ab ai c x h hsi hp hn; exact h hsi hp hn
-  mark := by intro ab ai c h _ _ hsi hp hn; exact h hsi hp hn
+  mono := by
+    intro ab ab' ai ai' c hab hai h hsi hp
+    exact ⟨fun hn => (h hsi hp).1 (fun hm => hn (hab _ hm)), fun he => hai _ ((h hsi hp).2 he)⟩
+  acked := by intro ab ai c h hsi hp; exact h hsi hp
+  miss := by intro ab ai c x h hsi hp; exact h hsi hp
+  mark := by intro ab ai c h _ _ hsi hp; exact h hsi hp
 
 theorem KTimed_closed (s : Sender.St) (σ : BitVec 16) (L : BitVec 32) (hpol : Policy s σ ReliabilityTypeTimed L) :
     Closed s (KTimed σ L) (fun _ => True) where
   toClosedL := KTimed_closedL σ L
   rtx := by
-    intro ab ai c _ _ hsi hp hn
+    intro ab ai c h _ _ hsi hp
+    have h0 := h hsi hp
+    refine ⟨fun hn => ?_, h0.2⟩
     rw [checkPR_timed s σ L hpol ab _ hsi hp] at hn
     split at hn
     · exact absurd List.mem_cons_self hn
@@ -176,7 +151,9 @@ theorem KTimed_closed (s : Sender.St) (σ : BitVec 16) (L : BitVec 32) (hpol : P
       have : (Sender.rtxUpd s c).firstSent = c.firstSent := rfl
       rw [this] at hge; omega
   fast := by
-    intro ab ai c _ _ _ _ hsi hp hn
+    intro ab ai c h _ _ _ hsi hp
+    have h0 := h hsi hp
+    refine ⟨fun hn => ?_, h0.2⟩
     rw [checkPR_timed s σ L hpol ab _ hsi hp] at hn
     split at hn
     · exact absurd List.mem_cons_self hn
@@ -185,50 +162,38 @@ theorem KTimed_closed (s : Sender.St) (σ : BitVec 16) (L : BitVec 32) (hpol : P
       have : (Sender.fastUpd s c).firstSent = c.firstSent := rfl
       rw [this] at hge; omega
   fresh := by
-    intro ab ai c tsn _ hsi hp hn
+    intro ab ai c tsn _ hsi hp
     have hsi' : (firstTx s tsn c).si = σ := hsi
-    rw [checkPR_timed s σ L hpol ab _ hsi' hp] at hn
-    split at hn
-    · exact absurd List.mem_cons_self hn
-    · rename_i hge
-      show s.now - s.now < L.toNat
-      have : (firstTx s tsn c).firstSent = s.now := rfl
-      rw [this] at hge; omega
+    refine ⟨fun hn => ?_, fun he => ?_⟩
+    · rw [checkPR_timed s σ L hpol ab _ hsi' hp] at hn
+      split at hn
+      · exact absurd List.mem_cons_self hn
+      · rename_i hge
+        show s.now - s.now < L.toNat
+        have : (firstTx s tsn c).firstSent = s.now := rfl
+        rw [this] at hge; omega
+    · have he' : c.efrag = true := he
+      have hm : (firstTx s tsn c).msg = c.msg := rfl
+      rw [hm]; simp [he']
 
 /-- a message `m` that is abandoned() — marked AND all its fragments in flight: every in-flight chunk of it sees that, and
-its `psi` (transmissions so far + 1 if a retransmission mark is pending) stays at or below `B` from now on: no further
-transmission, except one for a chunk that still carries a mark -/
-def Frozen (m B : Nat) (ab ai : List Nat) (c : Sender.Chunk) : Prop :=
-  c.msg = m → (m ∈ ab ∧ m ∈ ai) ∧ psi c ≤ B
+its transmission count stays at or below the snapshot `B` (indexed by TSN) from now on: it is never transmitted again -/
+def Frozen (m : Nat) (B : BitVec 32 → Nat) (ab ai : List Nat) (c : Sender.Chunk) : Prop :=
+  c.msg = m → (m ∈ ab ∧ m ∈ ai) ∧ c.nSent.toNat ≤ B c.tsn
 
-theorem Frozen_closedL (m B : Nat) : ClosedL (Frozen m B) where
+theorem Frozen_closedL (m : Nat) (B : BitVec 32 → Nat) : ClosedL (Frozen m B) where
   mono := by intro ab ab' ai ai' c hab hai h hm; exact ⟨⟨hab _ (h hm).1.1, hai _ (h hm).1.2⟩, (h hm).2⟩
-  acked := by
-    intro ab ai c h hm
-    have hm' : c.msg = m := hm
-    refine ⟨(h hm').1, ?_⟩
-    have := (h hm').2
-    simp only [psi, Sender.Chunk.markAcked] at this ⊢
-    split at this <;> simp <;> omega
+  acked := by intro ab ai c h hm; exact h hm
   miss := by intro ab ai c x h hm; exact h hm
-  mark := by
-    intro ab ai c h hna _ hm
+  mark := by intro ab ai c h _ _ hm; exact h hm
+
+theorem Frozen_closed (s : Sender.St) (m : Nat) (B : BitVec 32 → Nat) : Closed s (Frozen m B) (fun c => c.msg ≠ m) where
+  toClosedL := Frozen_closedL m B
+  rtx := by
+    intro ab ai c h _ hna hm
     have hm' : c.msg = m := hm
     have := isAbandoned_true (c := c) (by rw [hm']; exact (h hm').1.1) (by rw [hm']; exact (h hm').1.2)
     rw [hna] at this; cases this
-
-theorem Frozen_closed (s : Sender.St) (m B : Nat) : Closed s (Frozen m B) (fun c => c.msg ≠ m) where
-  toClosedL := Frozen_closedL m B
-  rtx := by
-    intro ab ai c h hr hm
-    have hm' : c.msg = m := hm
-    refine ⟨⟨checkPR_mono _ _ _ _ (h hm').1.1, (h hm').1.2⟩, ?_⟩
-    have := (h hm').2
-    have h2 := toNat_succ_le c.nSent
-    have hn : (Sender.rtxUpd s c).nSent = c.nSent + 1 := rfl
-    have hf : (Sender.rtxUpd s c).retransmit = false := rfl
-    simp only [psi, hr, if_true] at this
-    simp only [psi, hn, hf]; simp; omega
   fast := by
     intro ab ai c h _ hna _ hm
     have hm' : c.msg = m := hm
